@@ -85,6 +85,20 @@ func (g *Gen) markSite(k string) {
 	g.sitesSeen[k] = true
 }
 
+// lockLoc: the location of a mutex given the receiver of Lock/Unlock (a pointer to a struct field or to a mutex).
+func (g *Gen) lockLoc(recv Val) (p Ptr, ok bool) {
+	defer func() {
+		if r := recover(); r != nil {
+			ok = false
+		}
+	}()
+	p = g.ptrOf(recv)
+	if len(p.Idx) == 0 {
+		return p, false
+	}
+	return p, true
+}
+
 func shortFuncName(f *ssa.Function) string {
 	s := f.String()
 	s = strings.ReplaceAll(s, "github.com/centrifugal/centrifuge/", "")
@@ -201,6 +215,24 @@ func (g *Gen) callInner(in ssa.Instruction, c *ssa.CallCommon, rt types.Type) Va
 		args = append(args, g.val(a))
 	}
 	pos := in.Pos()
+	if g.fc != nil && g.fc.TrackLocks && len(args) > 0 {
+		// ghost "held" bit of the mutex location (only in units that ask for it with `track-locks`)
+		switch name {
+		case "(*sync.Mutex).Lock", "(*sync.RWMutex).Lock", "(*sync.Mutex).Unlock", "(*sync.RWMutex).Unlock":
+			if p, ok := g.lockLoc(args[0]); ok {
+				hn := "held:" + p.Prefix
+				cur := g.heapGet(g.heap, hn, "(Array Int Bool)")
+				val := "true"
+				if strings.HasSuffix(name, "Unlock") {
+					val = "false"
+				}
+				g.heap = g.heap.clone()
+				g.heapSet(g.heap, hn, "(Array Int Bool)", "(store "+cur+" "+p.Idx[0]+" "+val+")")
+				g.addAssumption("track-locks: Lock/Unlock only set a ghost held bit (mutual exclusion itself is assumed)")
+				return Val{K: kUntyped}
+			}
+		}
+	}
 	if b, ok := c.Value.(*ssa.Builtin); ok {
 		return g.builtin(b.Name(), c, args, rt, pos)
 	}
